@@ -32,14 +32,16 @@ rc, o = sh("cargo test --offline --all-features --test demo_seeded 2>&1 | tail -
 meta["demo_without_change"] = "passes" if re.search(r"test result: ok", o) and "FAILED" not in o else "DOES NOT PASS"
 rc, o = sh("git apply " + patch, cwd=wt)
 meta["patch_applies"] = rc == 0
+os.remove(os.path.join(wt, "tests", "demo_seeded.rs"))
 rc, o = sh("cargo test --workspace --no-fail-fast --offline 2>&1 | grep -E '^test result|FAILED|^error' ", cwd=wt)
 passed = sum(int(m) for m in re.findall(r"(\d+) passed", o))
 failed = sum(int(m) for m in re.findall(r"(\d+) failed", o))
 meta["pinned_suite_with_change"] = "%d passed, %d failed" % (passed, failed)
+rc, o = sh("cargo test --offline --all-features 2>&1 | grep -E '^test result|FAILED'", cwd=wt)
+meta["all_features_suite_with_change"] = "%d passed, %d failed" % (sum(int(m) for m in re.findall(r"(\d+) passed", o)), sum(int(m) for m in re.findall(r"(\d+) failed", o)))
+shutil.copy(demo, os.path.join(wt, "tests", "demo_seeded.rs"))
 rc, o = sh("cargo test --offline --all-features --test demo_seeded 2>&1 | tail -25", cwd=wt)
 meta["demo_with_change"] = "fails" if ("FAILED" in o or "panicked" in o or "error" in o.lower()) and not re.search(r"test result: ok", o) else "DOES NOT FAIL"
-rc, o = sh("cargo test --offline --all-features 2>&1 | grep -E '^test result|FAILED' | grep -v demo_seeded", cwd=wt)
-meta["all_features_suite_with_change"] = "%d passed, %d failed" % (sum(int(m) for m in re.findall(r"(\d+) passed", o)), sum(int(m) for m in re.findall(r"(\d+) failed", o)))
 os.remove(os.path.join(wt, "tests", "demo_seeded.rs"))
 valid = meta["demo_without_change"] == "passes" and meta["patch_applies"] and failed == 0 and passed >= 38 and meta["demo_with_change"] == "fails"
 meta["confirmed"] = valid
